@@ -1338,7 +1338,17 @@ impl QueryPlan {
                     ),
                 };
 
-                if declaration.encoding_invariance && type_lhs.is_scalar && type_rhs.is_encoded() {
+                // A string constant can only be translated into a dictionary index for (in)equality:
+                // a string that is absent from the dictionary has no index that orders correctly.
+                let is_string =
+                    |t: &Type| matches!(t.decoded, BasicType::String | BasicType::NullableString);
+                let encodable = matches!(function, Equals | NotEquals)
+                    || !(is_string(&type_lhs) || is_string(&type_rhs));
+                if declaration.encoding_invariance
+                    && encodable
+                    && type_lhs.is_scalar
+                    && type_rhs.is_encoded()
+                {
                     plan_lhs = if type_rhs.decoded == BasicType::Integer || type_rhs.decoded == BasicType::NullableInteger {
                         if let QueryPlan::ScalarI64 { value, .. } = *planner.resolve(&plan_lhs) {
                             planner
@@ -1363,6 +1373,7 @@ impl QueryPlan {
                         panic!("Can't elide decode on {:?}", plan_rhs)
                     };
                 } else if declaration.encoding_invariance
+                    && encodable
                     && type_rhs.is_scalar
                     && type_lhs.is_encoded()
                 {
